@@ -24,7 +24,8 @@ def main():
     for p in props:
         pid = p["id"]
         path = os.path.join(VERIF, "harness", "props", pid + ".py")
-        if not os.path.exists(path):
+        claimed = open(os.path.join(VERIF, "harness", "claimed.txt")).read().split()
+        if not os.path.exists(path) or pid not in claimed:
             na.append({"property_id": pid, "reason": "check under construction in this session (model and theorems not yet committed); not claimed until it runs clean"})
             continue
         mod = importlib.import_module(f"harness.props.{pid}")
